@@ -34,13 +34,14 @@ VARIABLES cfg,      \* configuration of this run (never changes)
           shared,   \* message whose Context was written last into the broker dict
           snap,     \* per message: Context its top-level resolve context holds
           grp,      \* per message: group (sub-context) -> Context it captured
+          gk,       \* per message: gate it is suspended at (NoG = none)
           opened,   \* set of gates the environment has opened
           returned, \* listen() has returned
           settling, \* an Advance happened and the loop has not settled yet
           out,      \* events emitted by the last step
           obs, viol \* observable summary / violated clauses (RxProps)
 
-kvars == <<cfg, now, k, cbw, pc, outc, toAt, shared, snap, grp, opened, returned, settling>>
+kvars == <<cfg, now, k, cbw, pc, outc, toAt, shared, snap, grp, gk, opened, returned, settling>>
 vars == <<kvars, out, obs, viol>>
 
 NoEv == <<>>
@@ -210,6 +211,14 @@ Prog(c, m, oc) ==
   ELSE IF HooksDie(c, "pre") THEN Pre(c, m)
   ELSE IF oc = "none" THEN Pre(c, m) ELSE Pre(c, m) \o Post(c, m, oc)
 
+(* a sub-context copies the dependency-context dict when it is created, i.e. *)
+(* right before the first dependency of its subtree is opened: capture for   *)
+(* the group and every not-yet-created ancestor group                        *)
+RECURSIVE CapChain(_, _, _, _)
+CapChain(c, gr, g, val) ==
+  IF g = 0 THEN gr
+  ELSE CapChain(c, IF gr[g] = 0 THEN [gr EXCEPT ![g] = val] ELSE gr, c.gpar[g], val)
+
 (* run message m's pipeline from r.pc until it suspends or ends              *)
 (* r = [pc, w, evs, shared, snap, grp, toAt]                                  *)
 RECURSIVE Run(_, _, _, _, _, _)
@@ -219,8 +228,8 @@ Run(c, m, P, r, gates, t) ==
     LET i == P[r.pc]
         g == IF i.fx \in {"cap", "capd"} THEN DepRec(c, i.x).grp ELSE 0
         r0 == CASE i.fx = "ctx" -> [r EXCEPT !.shared = m, !.snap = m]
-                [] i.fx = "cap" /\ g > 0 /\ r.grp[g] = 0 ->
-                      [r EXCEPT !.grp[g] = IF CtxDictShared THEN r.shared ELSE r.snap]
+                [] i.fx = "cap" /\ g > 0 ->
+                      [r EXCEPT !.grp = CapChain(c, r.grp, g, IF CtxDictShared THEN r.shared ELSE r.snap)]
                 [] i.fx = "start" /\ MsgC(c, m).timeout > 0 -> [r EXCEPT !.toAt = t + MsgC(c, m).timeout]
                 [] OTHER -> r
         yv == CASE i.fx \in {"cap", "capd"} -> IF g > 0 THEN r0.grp[g] ELSE r0.snap
@@ -230,7 +239,7 @@ Run(c, m, P, r, gates, t) ==
         nxt == [r1 EXCEPT !.pc = @ + 1]
     IN CASE i.k = "go" -> Run(c, m, P, nxt, gates, t)
          [] i.k = "yield" -> [nxt EXCEPT !.w = "ready"]
-         [] i.k = "gate" -> IF i.g \in gates THEN Run(c, m, P, nxt, gates, t) ELSE [nxt EXCEPT !.w = "gate"]
+         [] i.k = "gate" -> IF i.g \in gates THEN Run(c, m, P, nxt, gates, t) ELSE [nxt EXCEPT !.w = "gate", !.g = i.g]
          [] i.k = "body" -> [nxt EXCEPT !.w = "body"]
          [] OTHER -> [nxt EXCEPT !.evs = Append(@, EvT("cb_e", m, 0, 0, "raised:HookError", t)), !.w = "fin",
                                  !.pc = Len(P) + 1]
@@ -241,7 +250,7 @@ Msgs == 1..cfg.M
 
 CurOutcome(m) == IF StaticOutcome(cfg, m) # "none" THEN StaticOutcome(cfg, m) ELSE outc[m]
 CurProg(m) == Prog(cfg, m, CurOutcome(m))
-GateOf(m) == CurProg(m)[pc[m] - 1].g
+GateOf(m) == gk[m]
 
 CbEnabled(m) == \/ cbw[m] = "ready"
                 \/ cbw[m] = "gate" /\ GateOf(m) \in opened
@@ -261,13 +270,12 @@ Quiescent == ~(GFetch \/ GPGranted \/ GPWait \/ GRGranted \/ GRGet \/ GRDrain \/
                \/ \E m \in Msgs : CbEnabled(m) \/ GRelease(m) \/ GTimeout(m))
 EnvOK == Quiescent \/ ~settling
 
+EmitStep(acc, ev) == LET o2 == TLCEval(RxFold(cfg, acc.o, ev))
+                     IN [o |-> o2, v |-> acc.v \cup RxCheck(cfg, o2, ev)]
 Emit(evs) == /\ out' = evs
-             /\ LET F[i \in 0..Len(evs)] ==
-                      IF i = 0 THEN [o |-> obs, v |-> viol]
-                      ELSE LET o2 == RxFold(cfg, F[i - 1].o, evs[i])
-                           IN [o |-> o2, v |-> F[i - 1].v \cup RxCheck(cfg, o2, evs[i])]
-                IN /\ obs' = F[Len(evs)].o
-                   /\ viol' = F[Len(evs)].v
+             /\ LET res == TLCEval(FoldLeft(EmitStep, [o |-> obs, v |-> viol], evs))
+                IN /\ obs' = res.o
+                   /\ viol' = res.v
 
 (* apply a kernel result: newly spawned callbacks become runnable *)
 SetK(k1) == /\ k' = [k1 EXCEPT !.spawn = <<>>]
@@ -286,6 +294,7 @@ InitWith(c) ==
   /\ shared = 0
   /\ snap = [m \in 1..cfg.M |-> 0]
   /\ grp = [m \in 1..cfg.M |-> [g \in 1..Len(cfg.gpar) |-> 0]]
+  /\ gk = [m \in 1..cfg.M |-> NoG]
   /\ opened = {}
   /\ returned = FALSE
   /\ settling = FALSE
@@ -300,32 +309,35 @@ Arrive(n) ==
   /\ k' = [k EXCEPT !.arrived = @ + n]
   /\ settling' = FALSE
   /\ Emit(<<Ev("arrive", 0, n, 0, "")>>)
-  /\ UNCHANGED <<cfg, now, cbw, pc, outc, toAt, shared, snap, grp, opened, returned>>
+  /\ UNCHANGED <<cfg, now, cbw, pc, outc, toAt, shared, snap, grp, gk, opened, returned>>
 
 Stop ==
   /\ EnvOK /\ ~k.stop
   /\ k' = [k EXCEPT !.stop = TRUE]
   /\ settling' = FALSE
   /\ Emit(<<Ev("stop", 0, 0, 0, "")>>)
-  /\ UNCHANGED <<cfg, now, cbw, pc, outc, toAt, shared, snap, grp, opened, returned>>
+  /\ UNCHANGED <<cfg, now, cbw, pc, outc, toAt, shared, snap, grp, gk, opened, returned>>
 
 Fin(m, o) ==
   /\ EnvOK /\ cbw[m] = "body" /\ outc[m] = "none" /\ o \in Outcomes
   /\ outc' = [outc EXCEPT ![m] = o]
   /\ settling' = FALSE
   /\ Emit(<<Ev("fin", m, 0, 0, o)>>)
-  /\ UNCHANGED <<cfg, now, k, cbw, pc, toAt, shared, snap, grp, opened, returned>>
+  /\ UNCHANGED <<cfg, now, k, cbw, pc, toAt, shared, snap, grp, gk, opened, returned>>
 
-GateKeys == {<<h, m, i>> : h \in {"pre", "onerr", "post", "postsave"}, m \in Msgs, i \in 1..NMw(cfg)}
-            \cup {<<"dep", m, d>> : m \in Msgs, d \in {cfg.deps[j].id : j \in DOMAIN cfg.deps}}
-            \cup {<<"save", m, 0>> : m \in Msgs}
+(* only gates some pipeline can actually wait at *)
+GateKeys == {key \in {<<h, m, i>> : h \in {"pre", "onerr", "post", "postsave"}, m \in Msgs, i \in 1..NMw(cfg)} :
+                 IsValid(cfg, key[2]) /\ HookMode(cfg, key[3], key[1]) = "gate"}
+            \cup {<<"dep", m, cfg.deps[j].id>> : m \in {mm \in Msgs : DepsOf(cfg, mm) # <<>>},
+                                                 j \in {jj \in DOMAIN cfg.deps : cfg.deps[jj].suspend /\ IsAsyncStyle(cfg.deps[jj].style)}}
+            \cup {<<"save", m, 0>> : m \in {mm \in Msgs : cfg.bsusp /\ IsValid(cfg, mm)}}
 OpenGate(key) ==
   /\ EnvOK /\ key \notin opened
   /\ opened' = opened \cup {key}
   /\ settling' = FALSE
   /\ LET hit == \E m \in Msgs : cbw[m] = "gate" /\ GateOf(m) = key
      IN Emit(<<Ev("gate", key[2], key[3], IF hit THEN 1 ELSE 0, key[1])>>)
-  /\ UNCHANGED <<cfg, now, k, cbw, pc, outc, toAt, shared, snap, grp, returned>>
+  /\ UNCHANGED <<cfg, now, k, cbw, pc, outc, toAt, shared, snap, grp, gk, returned>>
 
 Timers == (IF k.pf = "wait" /\ k.fetch # "done" THEN {k.pollAt} ELSE {})
           \cup (IF k.rn = "drain" /\ k.drainAt >= 0 THEN {k.drainAt} ELSE {})
@@ -336,21 +348,21 @@ Advance(t) ==
   /\ now' = t
   /\ settling' = TRUE
   /\ Emit(<<EvT("adv", 0, 0, 0, "", t)>>)
-  /\ UNCHANGED <<cfg, k, cbw, pc, outc, toAt, shared, snap, grp, opened, returned>>
+  /\ UNCHANGED <<cfg, k, cbw, pc, outc, toAt, shared, snap, grp, gk, opened, returned>>
 
 (* ---------------- look-ahead fetch task ---------------- *)
 FetchStep ==
   /\ GFetch
   /\ k' = [k EXCEPT !.fetch = "done", !.fetchMsg = k.ntaken + 1, !.ntaken = @ + 1]
   /\ Emit(<<Ev("take", k.ntaken + 1, 0, 0, "")>>)
-  /\ UNCHANGED <<cfg, now, cbw, pc, outc, toAt, shared, snap, grp, opened, returned, settling>>
+  /\ UNCHANGED <<cfg, now, cbw, pc, outc, toAt, shared, snap, grp, gk, opened, returned, settling>>
 
 (* ---------------- prefetcher ---------------- *)
 PGranted ==
   /\ GPGranted
   /\ SetK(PfAfterAcq(cfg, [k EXCEPT !.pf = "run"], now))
   /\ Emit(<<>>)
-  /\ UNCHANGED <<cfg, now, outc, toAt, shared, snap, grp, opened, returned, settling>>
+  /\ UNCHANGED <<cfg, now, outc, toAt, shared, snap, grp, gk, opened, returned, settling>>
 
 PWake ==
   /\ GPWait
@@ -361,38 +373,38 @@ PWake ==
           IN SetK(PfTop(cfg, k1, now))
      ELSE SetK(PfTop(cfg, [k EXCEPT !.permits = @ + 1, !.pf = "run"], now))
   /\ Emit(<<>>)
-  /\ UNCHANGED <<cfg, now, outc, toAt, shared, snap, grp, opened, returned, settling>>
+  /\ UNCHANGED <<cfg, now, outc, toAt, shared, snap, grp, gk, opened, returned, settling>>
 
 (* ---------------- runner ---------------- *)
 RGranted ==
   /\ GRGranted
   /\ SetK(RnAfterAcq(cfg, [k EXCEPT !.rn = "run"], now))
   /\ Emit(<<>>)
-  /\ UNCHANGED <<cfg, now, outc, toAt, shared, snap, grp, opened, returned, settling>>
+  /\ UNCHANGED <<cfg, now, outc, toAt, shared, snap, grp, gk, opened, returned, settling>>
 
 RGet ==
   /\ GRGet
   /\ SetK(RnGot(cfg, [k EXCEPT !.rn = "run"], now))
   /\ Emit(<<>>)
-  /\ UNCHANGED <<cfg, now, outc, toAt, shared, snap, grp, opened, returned, settling>>
+  /\ UNCHANGED <<cfg, now, outc, toAt, shared, snap, grp, gk, opened, returned, settling>>
 
 RDrain ==
   /\ GRDrain
   /\ k' = [k EXCEPT !.rn = "exited"]
   /\ Emit(<<>>)
-  /\ UNCHANGED <<cfg, now, cbw, pc, outc, toAt, shared, snap, grp, opened, returned, settling>>
+  /\ UNCHANGED <<cfg, now, cbw, pc, outc, toAt, shared, snap, grp, gk, opened, returned, settling>>
 
 ListenReturn ==
   /\ GReturn
   /\ returned' = TRUE
   /\ Emit(<<Ev("ret", 0, 0, 0, "")>>)
-  /\ UNCHANGED <<cfg, now, k, cbw, pc, outc, toAt, shared, snap, grp, opened, settling>>
+  /\ UNCHANGED <<cfg, now, k, cbw, pc, outc, toAt, shared, snap, grp, gk, opened, settling>>
 
 (* ---------------- callbacks ---------------- *)
 CbRun(m) ==
   /\ CbEnabled(m)
   /\ LET r0 == [pc |-> pc[m], w |-> "run", evs |-> <<>>, shared |-> shared, snap |-> snap[m],
-                grp |-> grp[m], toAt |-> toAt[m]]
+                grp |-> grp[m], toAt |-> toAt[m], g |-> NoG]
          r == Run(cfg, m, CurProg(m), r0, opened, now)
      IN /\ pc' = [pc EXCEPT ![m] = r.pc]
         /\ cbw' = [cbw EXCEPT ![m] = r.w]
@@ -400,6 +412,7 @@ CbRun(m) ==
         /\ snap' = [snap EXCEPT ![m] = r.snap]
         /\ grp' = [grp EXCEPT ![m] = r.grp]
         /\ toAt' = [toAt EXCEPT ![m] = r.toAt]
+        /\ gk' = [gk EXCEPT ![m] = r.g]
         /\ Emit(r.evs)
   /\ UNCHANGED <<cfg, now, k, outc, opened, returned, settling>>
 
@@ -407,7 +420,7 @@ CbTimeout(m) ==
   /\ GTimeout(m)
   /\ outc' = [outc EXCEPT ![m] = "cancel"]
   /\ Emit(<<>>)
-  /\ UNCHANGED <<cfg, now, k, cbw, pc, toAt, shared, snap, grp, opened, returned, settling>>
+  /\ UNCHANGED <<cfg, now, k, cbw, pc, toAt, shared, snap, grp, gk, opened, returned, settling>>
 
 CbRelease(m) ==
   /\ GRelease(m)
@@ -416,12 +429,12 @@ CbRelease(m) ==
           IN IF cfg.A = 0 THEN k1
              ELSE IF k1.rn = "racq" THEN [k1 EXCEPT !.rn = "rgranted"] ELSE [k1 EXCEPT !.slots = @ + 1]
   /\ Emit(<<>>)
-  /\ UNCHANGED <<cfg, now, pc, outc, toAt, shared, snap, grp, opened, returned, settling>>
+  /\ UNCHANGED <<cfg, now, pc, outc, toAt, shared, snap, grp, gk, opened, returned, settling>>
 
 Internal == FetchStep \/ PGranted \/ PWake \/ RGranted \/ RGet \/ RDrain \/ ListenReturn
             \/ \E m \in Msgs : CbRun(m) \/ CbTimeout(m) \/ CbRelease(m)
 Env == (\E n \in 1..M : Arrive(n)) \/ Stop \/ (\E m \in Msgs : \E o \in Outcomes : Fin(m, o))
-       \/ (\E key \in GateKeys : OpenGate(key)) \/ (\E t \in 1..MaxNow : Advance(t))
+       \/ (\E key \in GateKeys : OpenGate(key)) \/ (\E t \in Timers \cup {now + 1} : Advance(t))
 Next == Internal \/ Env
 
 Spec == Init /\ [][Next]_vars
